@@ -117,7 +117,8 @@ def rule_S5(ctx, F):
     writers = sorted(p for p, w in direct.items() if any(el and el[0] == "initial_chunk_counter" for a, el in w)
                      and any(F.fns[p].locals[a]["ty"] == "&mut Hasher" for a, el in w if el and el[0] == "initial_chunk_counter"))
     allowed = {"<Hasher as hazmat::HasherExt>::set_input_offset", "Hasher::reset"}
-    extra = [w for w in writers if w not in allowed]
+    # a hand-written Clone::clone_from replaces the whole object (its field coverage is rule_clone's obligation)
+    extra = [w for w in writers if w not in allowed and "core::clone::Clone>::clone" not in norm_path(w)]
     ctx.ob(not extra and "<Hasher as hazmat::HasherExt>::set_input_offset" in writers, "offset-writers", sio.loc,
            "initial_chunk_counter is assigned in %s ; allowed: set_input_offset, reset" % writers)
     # (b) both counters receive offset / CHUNK_LEN under the two asserts
